@@ -25,3 +25,5 @@ def run(ctx):
     base.run_twin(ctx, "batch_vs_chunked", scns)
     large = [TW.gen_c06_large(ctx.seed, i) for i in range(ctx.scale(6, 60))]
     base.run_twin(ctx, "batch_vs_chunked", large, shrink=False)
+    wide = [TW.gen_c06_wide(ctx.seed, i) for i in range(ctx.scale(9, 90))]
+    base.run_twin(ctx, "batch_vs_chunked", wide, shrink=False)
